@@ -31,6 +31,17 @@ fn single(prog: &str) {
                     println!("  op {i} [{} {}] -> {o}", ops[i].name, ops[i].args.join(" "));
                 }
                 println!("stopped: {:?}", run.outcome.stopped);
+                if std::env::var("C05_REGIONS").is_ok() {
+                    if let Some(rec) = fieldrun::record::<$F, $K>(&ops) {
+                        let mut counts = vec![0usize; rec.regions.len()];
+                        for c in &rec.cells {
+                            counts[c.region] += 1;
+                        }
+                        for (i, r) in rec.regions.iter().enumerate() {
+                            println!("  region {i}: {} cells={} sel={}", r.name, counts[i], r.selectors.len());
+                        }
+                    }
+                }
                 if let Some(p) = &run.prover {
                     if let Err(es) = p.verify() {
                         for e in es.iter().take(5) {
